@@ -628,7 +628,7 @@ def sockReadLoop : Nat → List Nat → Bytes → Nat → Bytes → Bytes × Boo
       if size - n = 0 then (out', false) else sockReadLoop f sched.tail (inc.drop n) (size - n) out'
 
 def sockRead (sched : List Nat) (inc : Bytes) (size : Nat) : Bytes × Bool :=
-  if size = 0 then ([], true) else sockReadLoop size sched inc size []     -- read(fd, buf, 0) returns 0: treated as an error
+  if size = 0 then ([], false) else sockReadLoop size sched inc size []     -- `if (size <= 0) return 0;` (8331f50): nothing read, no error
 
 /-! ## `HttpServer::serve(Socket)` around the handler, and `Http::request` around the exchange -/
 
